@@ -96,15 +96,24 @@ def cshapes(sh):
     return "[" + "; ".join(f'("{n}", {czl(i)}, {czl(s)})' for n, i, s in sh) + "]"
 
 
+def cshapes0(case, obs):
+    """initial layout: compared for walks and BFS roots (a BFS edge starts where another edge ended)"""
+    if case.get("src", "").startswith("bfs") and not case.get("root"):
+        return "None"
+    return f"(Some {cshapes(obs['shapes0'])})"
+
+
 def cobs(desc_term, rec):
     sh = "None" if rec.get("shapes") is None else f"(Some {cshapes(rec['shapes'])})"
     rb = rec.get("rebuilt")
     if rb is None:
-        rbt = "None"
+        rbt = "RNone"
     elif isinstance(rb, str):
-        rbt = "(Some None)"
+        rbt = "RRaised"
+    elif rb == rec.get("shapes"):
+        rbt = "RSame"
     else:
-        rbt = f"(Some (Some {cshapes(rb)}))"
+        rbt = f"(RShapes {cshapes(rb)})"
     return f'({desc_term}, "{rec["attr"]}", {czl(rec["ret"])}, {sh}, {rbt})'
 
 
@@ -198,7 +207,7 @@ class Block:
             except Exception as e:  # noqa
                 rec["desc"] = None
                 rec["error"] = rec["error"] or f"descriptor: {type(e).__name__}: {e}"[:300]
-            if rec["error"] is None and (i % every == 0 or i == n - 1):
+            if rec["error"] is None and every > 0 and (i % every == 0 or i == n - 1):
                 self.observe_full(m, case, rec)
             obs["steps"].append(rec)
             if rec["error"] is not None:
@@ -354,7 +363,7 @@ class MLP(Block):
 
     def coq(self, case, obs):
         return (f"check_mlp {self.static_term(case['static'])} {self.cfg_term(case['cfg'])} {czl(case['init'])} "
-                f"{cshapes(obs['shapes0'])} {self.steps_term(case, obs)}")
+                f"{cshapes0(case, obs)} {self.steps_term(case, obs)}")
 
 
 class Scalar(Block):
@@ -393,7 +402,7 @@ class Scalar(Block):
             f"({self.meth_term(s)}, {draws(s, 1)}, {cobs('(' + cz(r['desc']['layers']) + ', ' + cz(r['desc']['widths'][0]) + ')', r)})"
             for s, r in zip(case["steps"], obs["steps"])) + "]"
         a0 = f"{{| s_layers := {cz(case['init']['layers'])}; s_width := {cz(case['init']['width'])} |}}"
-        return f"{self.check_fn} {self.static_term(case['static'])} {self.cfg_term(case['cfg'])} {a0} {cshapes(obs['shapes0'])} {steps}"
+        return f"{self.check_fn} {self.static_term(case['static'])} {self.cfg_term(case['cfg'])} {a0} {cshapes0(case, obs)} {steps}"
 
 
 class LSTM(Scalar):
@@ -457,8 +466,16 @@ def register(block):
 
 
 # ------------------------------------------------------------------ driver entry points
-def run_case(case):
+def run_case_uncached(case):
     return BLOCKS[case["block"]].run(case)
+
+
+def run_case(case):
+    import c03_gen
+    k = key_case(case)
+    if k in c03_gen.CACHE:
+        return c03_gen.CACHE.pop(k)
+    return run_case_uncached(case)
 
 
 def coq_case(case, obs):
@@ -472,7 +489,7 @@ def oracle_case(case, obs):
 
 
 def key_case(case):
-    k = {x: case[x] for x in ("block", "static", "cfg", "init", "steps")}
+    k = {x: case.get(x) for x in ("block", "static", "cfg", "init", "steps", "every")}
     return hashlib.sha1(json.dumps(k, sort_keys=True, default=str).encode()).hexdigest()
 
 
@@ -501,3 +518,110 @@ def classify_case(case, obs):
     for s in case["steps"]:
         labs.append("args=" + ("explicit" if any(v is not None for v in s.get("args", {}).values()) else "drawn"))
     return labs
+
+
+# ------------------------------------------------------------------ CNN
+from agilerl.modules.cnn import EvolvableCNN  # noqa: E402
+
+
+def py_fmaps(h, w, ks, ss):
+    """feature-map sizes by plain arithmetic (oracle side, independent of the Coq model)"""
+    out = []
+    for k, s in zip(ks, ss):
+        h, w = (h - k) // s + 1, (w - k) // s + 1
+        out.append((h, w))
+    return out
+
+
+class CNN(Block):
+    name = "cnn"
+    cls = EvolvableCNN
+    layer_methods = ("add_layer", "remove_layer")
+    node_methods = ("add_channel", "remove_channel")
+    extra_methods = ("change_kernel",)
+
+    def kwargs(self, case):
+        kw = dict(case["static"]); kw.update(case["cfg"])
+        kw["channel_size"] = list(case["init"]["channels"]); kw["kernel_size"] = list(case["init"]["kernels"])
+        kw["stride_size"] = list(case["init"]["strides"])
+        return kw
+
+    def desc(self, m):
+        d = m.init_dict
+        ch = [int(x) for x in py(d["channel_size"])]
+        return {"layers": len(ch), "widths": ch, "kernels": [int(x) for x in py(d["kernel_size"])],
+                "strides": [int(x) for x in py(d["stride_size"])]}
+
+    def make_input(self, case, b):
+        return torch.randn(b, *case["static"]["input_shape"])
+
+    def bounds(self, case):
+        c = case["cfg"]
+        return {"layers": (c["min_hidden_layers"], c["max_hidden_layers"]), "widths": (c["min_channel_size"], c["max_channel_size"])}
+
+    def quantities(self, case, d):
+        q = super().quantities(case, d)
+        q += [(f"kernel[{i}]", k, 1, 9) for i, k in enumerate(d["kernels"])]
+        q += [(f"stride[{i}]", s, 1, 10 ** 6) for i, s in enumerate(d["strides"])]
+        q += [("len(kernels)-len(channels)", len(d["kernels"]) - len(d["widths"]), 0, 0),
+              ("len(strides)-len(channels)", len(d["strides"]) - len(d["widths"]), 0, 0)]
+        return q
+
+    def layer_blocked(self, case, m, pre):
+        if m != "add_layer":
+            return False
+        _, h, w = case["static"]["input_shape"]
+        fm = py_fmaps(h, w, pre["kernels"], pre["strides"])
+        ho, wo = fm[-1]
+        return ho <= 2 or wo <= 2 or min(ho, wo) // 4 <= 2
+
+    def effect(self, case, step, pre, post, rec):
+        out = super().effect(case, step, pre, post, rec)
+        if rec["attr"] == "change_kernel" and len(rec["ret"]) == 2:
+            i, k = rec["ret"]
+            exp = list(pre["kernels"])
+            if 0 <= i < len(exp):
+                exp[i] = k
+            if post["kernels"] != exp or post["widths"] != pre["widths"] or post["strides"] != pre["strides"]:
+                out.append(("effective", f"change_kernel reported layer {i} -> kernel {k} but kernels {pre['kernels']} -> {post['kernels']}"))
+        if rec["attr"] == "add_layer" and post["layers"] == pre["layers"] + 1:
+            if post["widths"][:-1] != pre["widths"] or post["kernels"][:-1] != pre["kernels"] or post["strides"][:-1] != pre["strides"]:
+                out.append(("effective", f"add_layer changed existing layers: {pre} -> {post}"))
+        if rec["attr"] == "remove_layer" and post["layers"] == pre["layers"] - 1:
+            if post["widths"] != pre["widths"][:-1] or post["kernels"] != pre["kernels"][:-1] or post["strides"] != pre["strides"][:-1]:
+                out.append(("effective", f"remove_layer did not drop exactly the last layer: {pre} -> {post}"))
+        return out
+
+    def static_term(self, s):
+        c, h, w = s["input_shape"]
+        return (f"{{| cs_in_ch := {cz(c)}; cs_h := {cz(h)}; cs_w := {cz(w)}; cs_out := {cz(s['num_outputs'])}; "
+                f"cs_layer_norm := {coq_bool(s.get('layer_norm', False))} |}}")
+
+    def cfg_term(self, c):
+        return (f"{{| c_min_layers := {cz(c['min_hidden_layers'])}; c_max_layers := {cz(c['max_hidden_layers'])}; "
+                f"c_min_ch := {cz(c['min_channel_size'])}; c_max_ch := {cz(c['max_channel_size'])} |}}")
+
+    def arch_term(self, d):
+        return f"{{| channels := {czl(d['channels'])}; kernels := {czl(d['kernels'])}; strides := {czl(d['strides'])} |}}"
+
+    def meth_term(self, step):
+        m = step["m"]
+        if m == "add_layer":
+            return "CAddLayer"
+        if m == "remove_layer":
+            return "CRemoveLayer"
+        if m == "change_kernel":
+            return f"(CChangeKernel {meth_args(step, ['kernel_size', 'hidden_layer'])})"
+        k = "CAddChannel" if m == "add_channel" else "CRemoveChannel"
+        return f"({k} {meth_args(step, ['hidden_layer', 'numb_new_channels'])})"
+
+    def coq(self, case, obs):
+        steps = "[" + "; ".join(
+            f"({self.meth_term(s)}, {draws(s, 2)}, "
+            f"{cobs('(' + czl(r['desc']['widths']) + ', ' + czl(r['desc']['kernels']) + ', ' + czl(r['desc']['strides']) + ')', r)})"
+            for s, r in zip(case["steps"], obs["steps"])) + "]"
+        return (f"check_cnn {self.static_term(case['static'])} {self.cfg_term(case['cfg'])} {self.arch_term(case['init'])} "
+                f"{cshapes0(case, obs)} {steps}")
+
+
+register(CNN())
